@@ -139,6 +139,7 @@ OVERLAYS = {
     "snaps_sched_test.go": ("snaps", "zz_verif_sched_test.go"),
     "snaps_frame_test.go": ("snaps", "zz_verif_frame_test.go"),
     "snaps_lock_test.go": ("snaps", "zz_verif_lock_test.go"),
+    "snaps_canary_test.go": ("snaps", "zz_verif_canary_test.go"),
 }
 
 
@@ -235,8 +236,19 @@ def run_impl(binp, cases, workdir, shards=None, test="^TestVerifTrace$", timeout
             raise BuildError("implementation harness timed out")
         if p.returncode != 0:
             raise BuildError("implementation harness failed:\n" + outp[-4000:])
-        texts.update(split_cases(open(fout).read()))
+        text = open(fout).read()
+        for line in text.splitlines()[:3]:
+            if line.startswith("canary "):
+                for tok in line.split()[1:]:
+                    k, _, v = tok.partition("=")
+                    if v == "0" or k not in CANARY:
+                        CANARY[k] = v
+        texts.update(split_cases(text))
     return texts
+
+
+# what the harness's canaries said (snaps_canary_test.go): lever -> "1" alive / "0" dead
+CANARY = {}
 
 
 def split_cases(text):
@@ -349,6 +361,14 @@ def outcome_agrees(impl, model):
     return ki == km or ki.startswith("other") or ki in ("unknown", "")
 
 
+def logs_agree(impl, model):
+    """the same number of logs, each of the same kind; a log whose wording the harness does not recognise ("unknown") agrees
+    with any kind"""
+    a = [] if impl in ("-", "", None) else impl.split(",")
+    b = [] if model in ("-", "", None) else model.split(",")
+    return len(a) == len(b) and all(x == y or x == "unknown" for x, y in zip(a, b))
+
+
 def outcomes_agree(got, want):
     """a sched line's outcomes (<g>:<o1>/<o2>;...): per goroutine, per call the same outcome class; failure kinds compared
     only where the harness recognised the message"""
@@ -417,8 +437,16 @@ def compare(impl, model, fields_by_kind):
             va, vb = a[2].get(f), b[2].get(f)
             if f == "writes":
                 va, vb = norm_writes(va or "-"), norm_writes(vb or "-")
+                # the model reports that a file was WRITTEN; the harness tells a write that changed the bytes (writes) from one
+                # that put the same bytes back (touched): a model write may be either
+                t = ["mod:" + x for x in (a[2].get("touched") or "-").split(",") if x != "-"]
+                if set(va) <= set(vb) <= set(va) | set(t):
+                    va = vb
             if f == "touched":
-                va, vb = va or "-", vb or "-"
+                # a file the model itself says was written is not an unexplained touch
+                mw = set(norm_writes(b[2].get("writes") or "-"))
+                va = ",".join(x for x in (va or "-").split(",") if x != "-" and ("mod:" + x) not in mw) or "-"
+                vb = vb or "-"
             if f == "line" and a[2].get("outcome") != "failed:diff":
                 continue  # the line is observable only in a diff report footer
             if vb == "*":
@@ -428,6 +456,9 @@ def compare(impl, model, fields_by_kind):
                 continue
             if f == "prev" and va and vb and "@" in va and "@" in vb and va.split("@")[0] == vb.split("@")[0] and va != vb:
                 DRIFT["frame.prev line number"] += 1     # getPrevSnapshot's line number feeds only the report's footer
+                continue
+            if f == "logs" and va != vb and logs_agree(va, vb):
+                DRIFT["log wording not recognised"] += 1
                 continue
             if f == "outcome" and va is not None and vb is not None:
                 if not outcome_agrees(va, vb):
